@@ -168,6 +168,8 @@ def run_tlc_export(name, module, cfgpath, outdir, tier, asan_stride, tlc_workers
         pool.finish()
         apool.finish()
         shutil.rmtree(meta, ignore_errors=True)
+        for f in glob.glob(os.path.join(SPEC, "*_TTrace_*")):
+            os.remove(f)
     text = b"".join(log).decode("utf8", "replace")
     with open(os.path.join(outdir, "tlc.log"), "w") as f:
         f.write(text)
@@ -422,15 +424,75 @@ def fam_drain(tier, outdir):
                           stride=2 if tier == "quick" else 1)
 
 
-FAMILIES = {"stop": fam_stop, "life": fam_life, "poll": fam_poll, "stream": fam_stream, "drain": fam_drain}
+def fam_destroy(tier, outdir):
+    consts = {"Handles": "{1}", "MaxTime": 5, "MaxCalls": 4, "PipeCap": 4, "MaxOut": 0, "ExitCodes": "{3}", "TermDelay": 1,
+              "DlOpts": "{0, 2}", "Timeouts": "{0, 2}", "ThirdActs": '"Small"'}
+    if tier == "thorough":
+        consts.update({"MaxTime": 6, "Timeouts": "{0, 1, 2}", "ThirdActs": '"All"'})
+    cfg = os.path.join(outdir, "MC_Destroy.cfg")
+    write_cfg(cfg, "Spec", consts, ["TypeOK", "LifeChild", "DestroyReleases", "DefaultTermNotEarly"])
+    res = run_tlc_export("destroy", "MC_Destroy", cfg, outdir, tier, asan_stride=16 if tier == "quick" else 4,
+                         stride=2 if tier == "quick" else 1)
+    # liveness under fairness, without VIEW (hist is then part of the state): the default policy terminates
+    lcfg = os.path.join(outdir, "MC_Destroy_live.cfg")
+    lconsts = dict(consts)
+    lconsts.update({"Timeouts": "{0}", "ThirdActs": '"DefaultOnly"', "MaxTime": 4, "DlOpts": "{0, 2}"})
+    write_cfg(lcfg, "FairSpec", lconsts, [], view=None, action_constraint=None, props=["DefaultDestroyReturns"])
+    live = run_tlc_plain("destroy_live", "MC_Destroy", lcfg, outdir)
+    res["liveness"] = live
+    return res
+
+
+def fam_status(tier, outdir):
+    consts = {"Handles": "{1}", "MaxTime": 0, "MaxCalls": 6, "PipeCap": 4, "MaxOut": 0, "ExitCodes": "{" + ", ".join(str(i) for i in range(256)) + "}", "TermDelay": 1,
+              "Signals": "{" + ", ".join(str(i) for i in range(1, 32) if i not in (17, 18, 19, 20, 21, 22, 23, 28)) + "}"}
+    cfg = os.path.join(outdir, "MC_Status.cfg")
+    write_cfg(cfg, "Spec", consts, ["TypeOK", "LifeChild", "Stable"])
+    return run_tlc_export("status", "MC_Status", cfg, outdir, tier, asan_stride=4, stride=1)
+
+
+def fam_run(tier, outdir):
+    consts = {"Handles": "{1}", "MaxTime": 3, "MaxCalls": 1, "PipeCap": 4, "MaxOut": 2, "ExitCodes": "{3}", "TermDelay": 1,
+              "DlOpts": "{0, 1}", "SinkFails": "{1, 3}", "Policies": "{0, 1, 2, 3}"}
+    if tier == "thorough":
+        consts.update({"MaxTime": 4, "MaxOut": 3, "SinkFails": "{1, 2, 3, 4}", "Policies": "{0, 1, 2, 3, 4}", "DlOpts": "{0, 1, 2}"})
+    cfg = os.path.join(outdir, "MC_Run.cfg")
+    write_cfg(cfg, "Spec", consts, ["TypeOK", "RunTruthful"])
+    return run_tlc_export("run", "MC_Run", cfg, outdir, tier, asan_stride=8, stride=1)
+
+
+def run_tlc_plain(name, module, cfgpath, outdir, timeout=1500, workers=8):
+    """TLC without export (liveness, pure model properties). Returns the stats; a violated property is an Infra error of the model."""
+    meta = os.path.join(outdir, "tlc_meta_" + name)
+    shutil.rmtree(meta, ignore_errors=True)
+    cmd = ["java", "-XX:+UseParallelGC", "-Xmx8g", "-cp", vlib.TLA_CP, "tlc2.TLC", "-workers", str(workers), "-metadir", meta,
+           "-config", cfgpath, os.path.join(SPEC, module + ".tla")]
+    try:
+        r = subprocess.run(cmd, capture_output=True, text=True, cwd=SPEC, timeout=timeout)
+    except subprocess.TimeoutExpired:
+        raise Infra("TLC timed out in %s" % name)
+    finally:
+        shutil.rmtree(meta, ignore_errors=True)
+        for f in glob.glob(os.path.join(SPEC, "*_TTrace_*")):
+            os.remove(f)
+    with open(os.path.join(outdir, name + ".log"), "w") as f:
+        f.write(r.stdout)
+    st = parse_tlc_stats(r.stdout)
+    if "No error has been found" not in r.stdout:
+        raise Infra("model property failed or TLC error in %s:\n%s" % (name, r.stdout[-2500:]))
+    return st
+
+
+FAMILIES = {"destroy": fam_destroy, "status": fam_status, "run": fam_run, "stop": fam_stop, "life": fam_life, "poll": fam_poll, "stream": fam_stream, "drain": fam_drain}
 
 PROPS = {
-    "C01": {"families": ["stop"], "title": "exit status exact, stable, reaped once"},
+    "C01": {"families": ["status", "stop"], "title": "exit status exact, stable, reaped once"},
     "C06": {"families": ["stop"], "title": "only the own unreaped child is signalled or waited for"},
     "C07": {"families": ["stop"], "title": "stop sequences"},
     "C14": {"families": ["life"], "title": "life cycle; misuse errors, never UB"},
     "C02": {"families": ["stream"], "title": "stream fidelity"},
-    "C16": {"families": ["drain"], "title": "drain and run"},
+    "C15": {"families": ["destroy"], "title": "destroy applies the stop policy"},
+    "C16": {"families": ["drain", "run"], "title": "drain and run"},
     "C17": {"families": ["stream"], "title": "nonblocking never blocks; blocking waits only for the child"},
     "C08": {"families": ["poll"], "title": "deadlines and timeouts bound every wait and poll"},
     "C09": {"families": ["poll"], "title": "poll reports exactly the true events"},
